@@ -11,6 +11,7 @@ CFG = {
         "C03_area", "C03_marea",
         "C03_centroid", "C03_centroid_invariant", "C03_centroid_true",
         "op_agrees_area", "op_agrees_centroid", "op_centroid_unclosed_differs", "C03_mcentroid_unfixed_wrong",
+        "C03_mcentroid_ring", "C03_mcentroid_spec_invariant", "C03_mcentroid",
         "distPointToSegment_min", "C03_length", "C03_length_multi", "C03_distance", "C03_distance_multi",
         "C03_buffer", "C03_buffer_panics"]],
     "trusted_base": [
